@@ -249,6 +249,9 @@ structure Case where
   neg : List Byte
   fifo : List Byte
   quiet : Bool
+  /-- frame specifications the FIFO content was encoded from (C04 streams only) -/
+  fspec : Option String := none
+  ftail : String := "none"
   ctorFaults : List Nat
   ops : List (Op × List Nat)
 
@@ -271,6 +274,8 @@ def parseHeader (toks : List String) : Option Case := do
       | ["pos", v] => do pure { c with pos := ← parseHexBytes v }
       | ["neg", v] => do pure { c with neg := ← parseHexBytes v }
       | ["fifo", v] => do pure { c with fifo := ← parseHexBytes v }
+      | ["fspec", v] => pure { c with fspec := some v }
+      | ["ftail", v] => pure { c with ftail := v }
       | _ => none) init
 
 def parseCase (line : String) : Option Case := do
